@@ -18,6 +18,7 @@ pub enum NetCmd {
     PredictBatch(Vec<Tensor>),
     Step(Tensor, Tensor, i32),
     LayerBackward(usize, Tensor, Tensor),
+    LearnTwice { data: Vec<(Tensor, Tensor)>, batch: usize, epochs1: i32, epochs2: i32 },
 }
 
 #[derive(Clone, Debug)]
@@ -251,6 +252,13 @@ impl Case {
                         enc_tensor_in(&mut t, x);
                         enc_tensor_in(&mut t, y);
                         t.push(*s as i128)
+                    }
+                    NetCmd::LearnTwice { data, batch, epochs1, epochs2 } => {
+                        t.push(10);
+                        enc_pairs(&mut t, data);
+                        push_n(&mut t, *batch);
+                        t.push(*epochs1 as i128);
+                        t.push(*epochs2 as i128)
                     }
                     NetCmd::LayerBackward(i, x, g) => {
                         t.push(9);
@@ -519,6 +527,17 @@ pub fn run_net_cmd(t: &mut Tok, n: &mut network::Network, cmd: &NetCmd) {
             let (_, g) = n.verif_objective().loss(post.last().unwrap(), y);
             let (wg, bg) = n.verif_backward(g, &pre, &post, &mx, fb);
             n.verif_update(*s, wg, bg);
+            enc_weights(t, n);
+        }
+        NetCmd::LearnTwice { data, batch, epochs1, epochs2 } => {
+            let xs: Vec<&Tensor> = data.iter().map(|p| &p.0).collect();
+            let ys: Vec<&Tensor> = data.iter().map(|p| &p.1).collect();
+            let _ = n.learn(&xs, &ys, None, *batch, *epochs1, None);
+            let (tr, vl, va) = n.learn(&xs, &ys, None, *batch, *epochs2, None);
+            for h in [&tr, &vl, &va] {
+                push_n(t, h.len());
+                h.iter().for_each(|e| out_f(t, *e));
+            }
             enc_weights(t, n);
         }
         NetCmd::LayerBackward(i, x, g) => {
